@@ -85,7 +85,7 @@ PROPS = {
                  quick=ev("^ZZ_C19_", "1..5 ANPs with priorities over all of int32 (real pdqsort/insertion-sort code executed for every order of the values); "
                           "name/singleton/owner-label conflicts at every pair of positions among 5 other resources",
                           "more than 5 ANPs (pdqsort switches strategy above 12 elements)", models=40),
-                 thorough=ev("^ZZ_C19_", "1..7 ANPs", "more than 7 ANPs; n>12 where pdqsort leaves insertion sort", models=300)),
+                 thorough=ev("^ZZ_C19_", "1..6 ANPs", "more than 6 ANPs; n>12 where pdqsort leaves insertion sort", models=300)),
         ],
     ),
     "C15": dict(
